@@ -41,6 +41,7 @@ type Sched struct {
 	Switches int
 	last     *task
 	sig      uint64
+	spin     map[int64]time.Duration // back-off of non-task goroutines waiting for a lock a parked task holds
 }
 
 func NewSched(seed uint64, choices []int, maxSteps int) *Sched {
@@ -96,15 +97,34 @@ func (s *Sched) Yield(site string, blocked bool) {
 	if s.abort {
 		return
 	}
+	g := goid()
 	s.mu.Lock()
-	t := s.byGoid[goid()]
-	s.mu.Unlock()
+	t := s.byGoid[g]
+	var d time.Duration
 	if t == nil {
 		// not a task (a timer callback, a component's own background goroutine): it runs to its next
 		// blocking point; if it waits for a lock held by a parked task it must wait durably, or the
-		// bubble's clock could never advance to the moment that task is resumed
+		// bubble's clock could never advance to the moment that task is resumed. It backs off while it
+		// waits: a task may be asleep for simulated minutes and every wake-up here costs a stack walk.
 		if blocked {
-			time.Sleep(time.Millisecond)
+			d = s.spin[g]
+			if d < time.Millisecond {
+				d = time.Millisecond
+			} else if d < time.Second {
+				d *= 2
+			}
+			if s.spin == nil {
+				s.spin = map[int64]time.Duration{}
+			}
+			s.spin[g] = d
+		} else if len(s.spin) > 0 {
+			delete(s.spin, g)
+		}
+	}
+	s.mu.Unlock()
+	if t == nil {
+		if d > 0 {
+			time.Sleep(d)
 		}
 		return
 	}
